@@ -8,6 +8,7 @@
                 on each of its paths.
   LOOP-LIVENESS run_lsp's loop leaves only on end of input or through process::exit in the `exit` arm.
   PIPELINE-AGREE lsp::get_diagnostics runs the same ordered front-end pipeline as syntax_check::check.
+  DIAG-COMPLETE  each iteration of get_diagnostics' conversion loops publishes exactly one diagnostic on every path.
 """
 import json
 from .. import panicinv as PI, mir as M, dflow as D
@@ -306,6 +307,67 @@ def run(ctx, res):
         res.ok("PIPELINE-AGREE", "get_diagnostics and syntax_check::check both run parse -> load -> check")
     else:
         res.bad("PIPELINE-AGREE", "pipeline # %s # %s" % (a, b), "lsp::get_diagnostics runs %s but syntax_check::check runs %s" % (a, b))
+    # ---- DIAG-COMPLETE: every parse error and every check diagnostic becomes exactly one published diagnostic: each
+    # iteration of the conversion loops in get_diagnostics pushes once on every path (no filter, no early `continue`)
+    gd_ = P.require_fn("lsp::get_diagnostics")
+    pushes_ = [bi for bi, t in gd_.calls() if (M.callee_name(t) or "").endswith("Vec::<T, A>::push") and t.get("argtys")
+               and "gen_lsp_types::Diagnostic" in t["argtys"][0]]
+    loops_ = {}
+    for h, a, body in D.natural_loops(gd_):
+        loops_.setdefault(h, set()).update(body)
+    n_conv = 0
+    for h, body in sorted(loops_.items()):
+        if not any(b in body for b in pushes_):
+            continue
+        n_conv += 1
+        # the iteration starts on the edge of the loop header's `next()` switch that stays inside the loop
+        starts = []
+        for b in body:
+            t = gd_.blocks[b]["term"]
+            if t["t"] == "switch" and any(x not in body for x in gd_.succ[b]) and gd_.dominates(b, [p_ for p_ in pushes_ if p_ in body][0]):
+                starts += [x for x in gd_.succ[b] if x in body]
+        rng = D.path_event_range(gd_, starts[0], [h], [p_ for p_ in pushes_ if p_ in body]) if starts else None
+        key = "lsp::get_diagnostics # conversion loop %d" % n_conv
+        if rng == (1, 1):
+            res.ok("DIAG-COMPLETE", key + ": exactly one diagnostic is published per item on every path")
+        else:
+            res.bad("DIAG-COMPLETE", key + " # pushes per item %s" % (rng,),
+                    "a loop of get_diagnostics that converts parse errors / check diagnostics does not publish exactly one diagnostic per item on "
+                    "every path (%s): some of what `garden check` reports for the same text is dropped or duplicated" % (rng,),
+                    gd_.loc(gd_.blocks[h]["term"].get("span")))
+    # iterator form: `.map(|d| Diagnostic {..})` collected or extended into the vector, with no adapter that drops items
+    for bi, t in gd_.calls():
+        n = M.callee_name(t) or ""
+        if not (n.endswith("Iterator::collect") or n.endswith("::extend")) or not t["args"]:
+            continue
+        chain = []
+        builds = False
+        r = gd_.root_of(t["args"][-1], through_named=True)
+        for _ in range(10):
+            if r[0] != "call":
+                break
+            nm = (M.callee_name(r[2]) or "").split("::")[-1]
+            chain.append(nm)
+            for a in r[2]["args"][1:]:
+                cp = PI._closure_of(gd_, a)
+                c_ = P.funcs.get(cp) if cp else None
+                if c_ is not None and any(st.get("s") == "assign" and st["rv"]["k"] == "agg" and st["rv"].get("adt") == "gen_lsp_types::Diagnostic"
+                                          for b_ in c_.blocks for st in b_["stmts"]):
+                    builds = True
+            if not r[2]["args"]:
+                break
+            r = gd_.root_of(r[2]["args"][0], through_named=True)
+        if not builds:
+            continue
+        n_conv += 1
+        dropping = [x for x in chain if x in ("filter", "filter_map", "take", "skip", "take_while", "skip_while", "step_by", "flat_map", "nth")]
+        key = "lsp::get_diagnostics # conversion chain %d" % n_conv
+        if dropping:
+            res.bad("DIAG-COMPLETE", key + " # " + ",".join(dropping), "the iterator chain that converts diagnostics passes through %s: items can be dropped or "
+                    "multiplied, so the published diagnostics differ from `garden check`" % ", ".join(dropping), gd_.loc(t.get("fn_span")))
+        else:
+            res.ok("DIAG-COMPLETE", key + ": map(..) without a dropping adapter")
+    res.floor("DIAG-COMPLETE", "conversion loops in get_diagnostics", n_conv, 2)
     if ctx.tier == "thorough":
         from .. import loops as LP
         LP.run(ctx, res, reach)
